@@ -293,13 +293,19 @@ def run(ctx, res):
         st, pr = biased(rng)
         cases.append((st, pr, None))
     texts = [gen.show_grammar(c[0]).encode('latin-1') for c in cases]
-    dumps = impl.dump(exe, texts, ['check', 'min'], ['bash'])
+    dumps = impl.dump(exe, texts, ['check', 'min', 'amb'], ['bash'])
     reqs, idx = [], []
     for i, d in enumerate(dumps):
         st = d['bash']
         counters['grammars'] += 1
         m = st.get('MIN', '')
-        if not m.startswith('(ok '):
+        if 'CRASH' in st or 'PANIC' in st:
+            # C09 speaks about accepted grammars, but a run in which the library dies must not pass for "nothing to judge"
+            counters['crashed'] = counters.get('crashed', 0) + 1
+            res.violations.append(report.Violation('the library crashed while compiling a generated grammar: %s' % (st.get('PANIC') or st.get('CRASH'))[:200],
+                                                   dict(grammar=texts[i].decode('latin-1'), kind='crash', impl={k: v[:500] for k, v in st.items()})))
+            continue
+        if not m.startswith('(ok ') or st.get('AMB', '(ok').startswith('(err'):
             counters['rejected'] += 1
             continue
         if '(unreferenced)' in m:
@@ -347,6 +353,10 @@ def run(ctx, res):
         counters['decided_some'] += 1
         cls = witness_class(dsx, w, texts[i].decode('latin-1'))
         ms = model_says.get(i)
+        if cls is not None and (ms is None or ms[0] != 'dfa'):
+            # the model pipeline does not accept the grammar the library accepted: nothing predicts the instance
+            counters['known_class_not_predicted_by_model'] = counters.get('known_class_not_predicted_by_model', 0) + 1
+            cls = None
         if cls is not None and ms is not None and ms[0] == 'dfa':
             mw = sexp.parse(ms[2]) if ms[2].startswith('(') else ['error']
             mcls = witness_class(ms[1], mw, texts[i].decode('latin-1')) if mw[0] == 'some' else None
@@ -471,9 +481,6 @@ def run(ctx, res):
                 if fa['ambiguous'] or fb_['ambiguous']:
                     counters['skipped_ambiguous'] += 1
                     continue
-                if fa['piece_boundary'] or fb_['piece_boundary']:
-                    counters['skipped_c01_mechanism'] += 1
-                    continue
                 if ws or pre:
                     pairs_nontrivial += 1
                 why = ''
@@ -497,18 +504,18 @@ def run(ctx, res):
                     counters['bar_candidates_judged'] += len(set(y['reply']))
                     counters['bar_candidates_undercut'] += len(missing & und[k])
                     if not why and missing - und[k]:
-                        if fa['greedy_shadow'] or fb_['greedy_shadow']:
-                            counters['undercut_skipped_greedy_shadow'] += 1
-                        else:
-                            why = ('the | script offers %r which the || script does not offer although no candidate of an earlier '
-                                   'level extends the typed prefix (undercut = %r)' % (sorted(missing - und[k]), sorted(und[k])))
+                        why = ('the | script offers %r which the || script does not offer although no candidate of an earlier '
+                               'level extends the typed prefix (undercut = %r)' % (sorted(missing - und[k]), sorted(und[k])))
                 if not why:
                     res.traces_validated += 1
                     continue
                 replay = dict(grammar=texts[i].decode('latin-1'), bar_variant=bt.decode('latin-1'), words=ws, prefix=pre,
                               barbar_script=x, bar_script=y, why=why, kind='spec-judgement',
                               minimised_dfa=a['MIN'][:3000], minimised_dfa_bar_variant=b['MIN'][:3000])
-                res.violations.append(report.Violation('C09: ' + why, replay, cls=cls))
+                # the known mechanisms (two readings of one word in one of the two automata) explain a different matched set or
+                # different candidates, nothing else: no answer from bash or a contradicted theorem is never a known instance
+                explained = not (why.startswith('bash produced no answer') or why.startswith('specification-level'))
+                res.violations.append(report.Violation('C09: ' + why, replay, cls=cls if explained else None))
         longest = max(longest, time.time() - tc)
     res.nontrivial = nontrivial + pairs_nontrivial
     res.rule = ('evaluations = automata decided by the extracted Ambig.find (Rust\'s minimised automaton of a generated grammar) + '
